@@ -278,29 +278,6 @@ Definition sim_body := proj2 sim_walk.
 Definition sim_item := proj1 sim_walk.
 End Sim.
 
-(* unary invariants: a property of the state preserved by every field step is preserved by the walk *)
-Section Inv.
-Variable T : tables.
-Variable ident : string.
-Variable Inv : st -> Prop.
-Hypothesis H_single : forall anam idx s s1, Inv s -> set_single T ident anam idx s = Ok s1 -> Inv s1.
-
-Lemma walk_inv b idx s s1 : Inv s -> dec_body T ident b idx s = Ok s1 -> Inv s1.
-Proof.
-  intros I E.
-  pose proof (sim_body T ident (fun a b => Inv a /\ a = b) false) as S.
-  assert (S1 : forall anam idx0 s0 s', Inv s0 /\ s0 = s' ->
-     osim (fun a b => Inv a /\ a = b) false (set_single T ident anam idx0 s0) (set_single T ident anam idx0 s')).
-  { intros anam idx0 s0 s' [I0 <-]. destruct (set_single T ident anam idx0 s0) as [s2| | |] eqn:E2; cbn; try discriminate.
-    exists s2. split; [reflexivity|]. split; [eapply H_single; eauto|reflexivity]. }
-  assert (S2 : forall k s0 s', Inv s0 /\ s0 = s' -> osim ctl_rel false (getattr (fst s0) k) (getattr (fst s') k)).
-  { intros k s0 s' [_ <-]. destruct (getattr (fst s0) k) as [v| | |]; cbn; try discriminate.
-    exists v. split; [reflexivity|apply ctl_rel_refl]. }
-  specialize (S S1 S2 b idx s s (conj I eq_refl)). rewrite E in S. cbn in S.
-  destruct S as [s2 [E2 [I1 _]]]. exact I1.
-Qed.
-End Inv.
-
 (* ================= Level 3 d : decode_run ================= *)
 Definition obj0 (p:bytes) (lbl:Z) : obj :=
   {| o_immutable := false; o_payload := p; o_payloadi := be p; o_labelmsm := lbl; o_unknown := false;
